@@ -133,3 +133,10 @@ Example wm_total_limits_hyp :
   exists s, lderive_limits Q (qleaves (-1000) 1000) wspecs (nth i (ordered_ids Q wm) d) (nth i [((-1) # 2, 3); (1, 2)] dl) = Ok s.
 Proof. intros i d dl Hi. destruct i as [|[|i]]; [eexists; vm_compute; reflexivity|eexists; vm_compute; reflexivity|].
   exfalso. vm_compute in Hi. repeat apply le_S_n in Hi. inversion Hi. Qed.
+
+(* with_limits on a log-gaussian prior (repaired by d755794; history: Prior.with_limits called
+   self.__class__(lower_limit=, upper_limit=) and raised TypeError, modelled then as `Exc EType`): now the intersection *)
+Example wlg_limits :
+  lderive_limits Q (qleaves (-1000) 1000) [(0%nat, Build_spec Q FLogGaussian (1 # 4) 4 0 0 None)] 0 (1 # 2, 2) =
+  Ok (Build_spec Q FLogGaussian (Qmax (1 # 2) (1 # 4)) (Qmin 2 4) (Qmax (1 # 2) (1 # 4)) (Qmax (1 # 2) (1 # 4)) None).
+Proof. vm_compute. reflexivity. Qed.
